@@ -283,6 +283,12 @@ def for_to_while(sh, lp, ordinal, inv_text, body_prefix):
     enum = False
     pre = ''
     e = expr
+    mm = re.match(r'^([A-Za-z0-9_.]+)\s*\.\.\s*([A-Za-z0-9_.]+)$', e)
+    if mm:
+        # a half-open range of integers: `for P in A..B { b }` ==> `let e = B; let mut i = A; while i < e { let P = i; i += 1; b }`
+        label = t[lp['start']:lp['kw_idx']]
+        return 'let __e%d = %s; let mut %s = %s; %swhile %s < __e%d %s { let %s = %s; %s += 1; %s' % (
+            ordinal, mm.group(2), i, mm.group(1), label, i, ordinal, inv_text, pat, i, i, body_prefix)
     mm = re.match(r'^(.*)\.iter\(\)\.rev\(\)$', e, re.S)
     if mm:
         rev, base = True, '&' + _paren(mm.group(1))
@@ -533,7 +539,7 @@ def transform_fn(text, spec):
     lbody = spec.get('loopbody', {})
     lafter = spec.get('afterloop', {})
     r7 = spec.get('r7', set())
-    for n in list(lspec) + list(lbody) + list(lafter) + list(r7) + list(spec.get('loopend', {})):
+    for n in list(lspec) + list(lbody) + list(lafter) + list(r7) + list(spec.get('r7v', set())) + list(spec.get('loopend', {})):
         if n >= len(sh.loops):
             raise ExtractError('fn %s: loop ordinal %d not found (has %d loops)' % (sh.name, n, len(sh.loops)))
     for n, lp in enumerate(sh.loops):
@@ -541,7 +547,22 @@ def transform_fn(text, spec):
         inv = (ls.get('inv') or '').rstrip()
         bp = (lbody.get(n) or '').rstrip()
         do_r7 = n in r7
-        if do_r7:
+        if n in spec.get('r7v', set()):
+            # R7 (by value): `for P in E { b }` over an owned Vec ==> the Vec is reversed and popped:
+            #   let mut __vN = E; let ghost __gN = __vN@; __vN.reverse(); while __vN.len() > 0 { let P = __vN.pop().unwrap(); b }
+            # (the elements are visited in the same order and moved out one by one; `continue` becomes legal)
+            if lp['kw'] != 'for':
+                raise ExtractError('R7 on non-for loop %d' % n)
+            t0 = sh.text
+            pat = t0[lp['hdr_end']:lp['in_idx']].strip()
+            expr = t0[lp['in_idx'] + 2:lp['open']].strip()
+            if not re.match(r'^[A-Za-z_][A-Za-z0-9_.]*$', expr):
+                raise ExtractError('R7 (by value): unsupported iteration expression %r' % expr)
+            label = t0[lp['start']:lp['kw_idx']]
+            head = 'let mut __v%d = %s; let ghost __g%d = __v%d@; __v%d.reverse(); %swhile __v%d.len() > 0 %s { let %s = __v%d.pop().unwrap(); %s' % (
+                n, expr, n, n, n, label, n, ('\n' + inv + '\n') if inv else '', pat, n, ('\n' + bp + '\n') if bp else '')
+            edits.append((lp['start'], lp['open'] + 1, head))
+        elif do_r7:
             if lp['kw'] != 'for':
                 raise ExtractError('R7 on non-for loop %d' % n)
             head = for_to_while(sh, lp, n, ('\n' + inv + '\n') if inv else '', ('\n' + bp + '\n') if bp else '')
